@@ -143,8 +143,34 @@ RULE = ("seeded trash worlds where destinations pre-exist as regular file / dire
         "dangling symlink for about 60% of the entries; 7 reply shapes (single, multi, ranges) x overwrite on/off x sort "
         "modes; recorded Paths with a trailing slash and with '.'/'..' components behind a directory that does not exist; "
         "directed worlds where what stands at the destination is the payload itself under another name (hard link, link to "
-        "it) with and without --overwrite; "
+        "it) with and without --overwrite; refusals with stderr on a full disk / broken pipe (still non-zero, still nothing clobbered); "
         "oracle: refused entries and everything after them stay in the trash, the destination is unchanged, exit != 0")
+
+
+def stderr_fault_task(task):
+    """the refusal cannot be SAID (stderr on a full disk, on a pipe nobody reads any more): the destination is still not
+    clobbered, the entry stays in the trash, and the exit status is still non-zero - judged on the real run alone"""
+    from ..model import cmd_argv, snap_to_state
+    from ..runner import jsonable
+    from ..sandbox import run_world
+    from .c15 import same_inode_world
+    i = task["i"]
+    world = same_inode_world(task["seed"], i)
+    world["opts"]["overwrite"] = False
+    world["stdin"] = [b"0\n", b"0-%d\n" % (len(world["meta"]["entries"]) - 1)][i % 2]
+    world["argv"] = cmd_argv(world)
+    plan = {"stderr_fault": [{"nth": 0, "errno": "ENOSPC"}, {"nth": 0, "errno": "EIO"}, {"nth": 0, "errno": "EPIPE", "pipe": True}][i % 3]}
+    o = run_world(world, plan)
+    before, after = snap_to_state(o["before"]), snap_to_state(o["after"])
+    e = world["meta"]["entries"][0]
+    problems = []
+    if o.get("exit") in (0, None):
+        problems.append("exit status %r although entry 0 was refused" % (o.get("exit"),))
+    for q in (e["loc"], e["tdir"] + b"/files/" + e["name"], e["tdir"] + b"/info/" + e["name"] + b".trashinfo"):
+        if after.get(q) != before.get(q):
+            problems.append("%r changed" % q)
+    return {"key": (i % 3, i % 2, i), "bad": [{"verdict": "; ".join(problems), "plan": plan, "stdout": repr(o["stdout"][-300:]),
+                                              "exc": o.get("exc"), "world": jsonable(world)}] if problems else []}
 
 
 def run(tier, seed):
@@ -159,6 +185,13 @@ def run(tier, seed):
     cfg = dict(CFG, tweak=None)
     absorb(ck, run_tasks(eval_task, [{"pid": "C06", "seed": seed, "i": 0, "cfg": cfg, "world": same_inode_world(seed, i)}
                                      for i in range(8 if tier == "quick" else 40)]), cfg)
+    for r in run_tasks(stderr_fault_task, [{"seed": seed, "i": i} for i in range(6 if tier == "quick" else 36)]):
+        if "machinery" in r:
+            from ..lean import MachineryError
+            raise MachineryError(r["machinery"])
+        ck.case(("stderr-fault", r["key"]), tags=["stderr-fault"])
+        for b in r["bad"]:
+            ck.violation("refusal-is-a-failure-even-unsaid", {"oracle": "C06-stderr-fault"}, b)
     return ck.finish(info, LEVEL_NOTE, RULE)
 
 
